@@ -144,8 +144,12 @@ class CountMinSketch(FrequencySketch[T]):
 
     def _hash(self, item: T, row: int) -> int:
         """Hash an item to a column index for a specific row."""
-        # Combine item hash with row-specific seed
-        item_hash = hash(item)
+        # Combine item hash with row-specific seed.  builtin hash() of str/bytes is
+        # randomised per interpreter (PYTHONHASHSEED), which made estimates differ
+        # from process to process; derive the item hash from its repr instead (as
+        # BloomFilter and HyperLogLog do).
+        item_digest = hashlib.sha256(repr(item).encode("utf-8")).digest()
+        item_hash = struct.unpack(">Q", item_digest[:8])[0]
         combined = item_hash ^ self._hash_seeds[row]
         # Mask to 64 bits to avoid overflow in struct.pack
         combined = combined & 0xFFFFFFFFFFFFFFFF
